@@ -4,7 +4,8 @@ import OVM.IO.Driver
 /-
   C07, OVMB half.  Subject: `decode` / `decodeStream` (lean/OVM/IO/Ovmb/Decode.lean), the model of `ovmb_read`
   with exactly the range checks the C++ has; unchecked kernel accesses (`vector::operator[]` in the topology
-  checks of `add_face` / `add_cell` and in the tet / hex overrides) are the ghost error `.ub`.  The model is tied
+  checks of `add_face` / `add_cell` and in the tet / hex overrides, incl. their distinct-vertex guard `spanCount`)
+  are the ghost error `.ub`.  The model is tied
   to the code by the differential run of tools/props/io_ovmb.py (same bytes to both, result class and mesh
   compared, the model compiled from these very files).
 
@@ -73,13 +74,15 @@ theorem add_face_in_range_safe (cfg : Cfg) (edges : List (Nat × Nat)) (hes : Li
     (h : ∀ x ∈ hes, x < 2 * edges.length) : ∃ b, addFace cfg edges hes = .ok b :=
   addFace_ok cfg h
 
-/-- `add_cell` (any mesh type) with halffaces below `2 * n_faces` makes no out-of-range access, and the list it
-    stores (possibly re-ordered by the hexahedral kernel) is again below `2 * n_faces` -/
-theorem add_cell_in_range_safe (cfg : Cfg) (hx : HexOK cfg) (faces : List (List Nat)) (hfs : List Nat)
-    (h : ∀ x ∈ hfs, x < 2 * faces.length) :
-    addCell cfg faces hfs ≠ .error .ub ∧
-      ∀ l, addCell cfg faces hfs = .ok (some l) → ∀ x ∈ l, x < 2 * faces.length :=
-  ⟨(addCell_safe cfg hx h).not_ub, fun l hl => (addCell_safe cfg hx h).of_ok hl l rfl⟩
+/-- `add_cell` (any mesh type) with halffaces below `2 * n_faces`, in a mesh whose stored faces only hold halfedges
+    below `2 * n_edges` (part of `RInv`), makes no out-of-range access — including the distinct-vertex guard of the
+    tet / hex overrides (`spanCount`) — and the list it stores (possibly re-ordered by the hexahedral kernel) is
+    again below `2 * n_faces` -/
+theorem add_cell_in_range_safe (cfg : Cfg) (hx : HexOK cfg) (edges : List (Nat × Nat)) (faces : List (List Nat))
+    (hfs : List Nat) (hfa : ∀ f ∈ faces, ∀ x ∈ f, x < 2 * edges.length) (h : ∀ x ∈ hfs, x < 2 * faces.length) :
+    addCell cfg edges faces hfs ≠ .error .ub ∧
+      ∀ l, addCell cfg edges faces hfs = .ok (some l) → ∀ x ∈ l, x < 2 * faces.length :=
+  ⟨(addCell_safe cfg hx hfa h).not_ub, fun l hl => (addCell_safe cfg hx hfa h).of_ok hl l rfl⟩
 
 /-- the chunk loop terminates: each successful `read_chunk` strictly decreases `remaining_bytes()` by at least
     the size of a chunk header (Lean accepted `loop` as a total function by exactly this measure) -/
